@@ -598,3 +598,19 @@ class QForall:
     def __init__(self, body, name='q'):
         self.body = body
         self.name = name
+
+
+class SQuant:
+    """truth value  (nonempty => n > 0) and forall k in [0, n): body(k)  of a bounded
+    universal statement over an integer index (e.g. bytes.isdigit(), a character-class
+    regular expression).  Deciding it forks into: holds (assumed as QForall) /
+    fails with a skolem witness / (if nonempty) n == 0."""
+
+    def __init__(self, n, body, nonempty=False, name='q'):
+        self.n = n
+        self.body = body
+        self.nonempty = nonempty
+        self.name = name
+
+    def __bool__(self):
+        raise ConcretizeError('bool() of quantified condition')
